@@ -416,6 +416,18 @@ pub fn loop_commit_products() -> Vec<Node> {
         out.push(star(cat(vec![Group(bx(Atomic(bx(f.clone())))), Look(bx(Backref(1)), true, false)])));
         out.push(cat(vec![Repeat(bx(cat(vec![Any, Look(bx(f.clone()), true, false)])), 1, None, Q::Lazy), Lit('c')]));
     }
+    // plain (delegable) alternatives of different lengths in a look-behind: the crate rewrites (?<=a|ba) into one
+    // look-behind per alternative, which has to be committed as a whole as well
+    let plain_alts: Vec<Node> = vec![
+        Alt(vec![Lit('a'), cat(vec![Lit('b'), Lit('a')])]),
+        Alt(vec![cat(vec![Lit('b'), Lit('a')]), Lit('a')]),
+        Alt(vec![Any, cat(vec![Any, Any]), Lit('a')]),
+    ];
+    for f in &plain_alts {
+        out.push(cat(vec![Repeat(bx(cat(vec![Lit('b'), Lit('a'), Look(bx(f.clone()), true, false)])), 0, None, Q::Greedy), Lit('c')]));
+        out.push(cat(vec![Assert(A::StartText), Repeat(bx(cat(vec![Any, Look(bx(f.clone()), true, false)])), 0, None, Q::Greedy), Lit('c')]));
+        out.push(cat(vec![Repeat(bx(cat(vec![Any, Any, Look(bx(f.clone()), true, false)])), 1, None, Q::Lazy), Lit('c')]));
+    }
     dedup_by_print(out)
 }
 
